@@ -182,6 +182,8 @@ type Dump struct {
 	ByPipeline   map[string][]int
 	ShuttingDown bool
 	Defs         *definition.PipelinesDef
+	// PersistPending: a save request is buffered for the persist loop
+	PersistPending int
 }
 
 func (d *Dump) Job(idx int) *DJob {
@@ -245,7 +247,7 @@ func (d *Dump) Short() string {
 
 func (w *World) dump() *Dump {
 	st := prunner.VerifDump(w.R)
-	d := &Dump{WaitLists: map[string][]int{}, ByPipeline: map[string][]int{}, ShuttingDown: st.IsShuttingDown, Defs: st.Defs}
+	d := &Dump{WaitLists: map[string][]int{}, ByPipeline: map[string][]int{}, ShuttingDown: st.IsShuttingDown, Defs: st.Defs, PersistPending: st.PersistPending}
 	rel := func(t *time.Time) time.Duration {
 		if t == nil {
 			return nilDur
